@@ -409,7 +409,7 @@ pub fn minimize(start_fen: &str, trace: &[Op], prop: u32, v: &Violation) -> Resu
                 continue;
             }
             for i in (0..j).rev() {
-                if !matches!(cur[i], Op::Push(_) | Op::PushUciList(_)) {
+                if !matches!(cur[i], Op::Push(_) | Op::PushUnchecked(_) | Op::PushUciList(_)) {
                     continue;
                 }
                 if budget == 0 {
